@@ -20,6 +20,10 @@ def handle(task):
     mode = task["mode"]
     st = semantics.Stats()
     jobs = semantics.executions(defn, k, st)
+    if task.get("names"):
+        # realistic event names (blanks, dots, slashes, digits, brackets)
+        nm = task["names"]
+        jobs = [[(i, nm.get(t, t), ps) for i, t, ps in j] for j in jobs]
     types = sorted({t for j in jobs for _, t, _ in j})
     runs = []
     from .. import present, impl_pv
@@ -200,13 +204,15 @@ def collect_generic(pid, tier, tasks, results, bounds, rule, level,
             outcomes[oc] = outcomes.get(oc, 0) + 1
             for p in probs:
                 viol.append({
-                    "key": input_key([t["defn"], kind_of(p)]),
+                    "key": input_key([t["defn"], kind_of(p)] +
+                                     (["names"] if t.get("names") else [])),
                     "what": f"{t.get('name', 'F')} {dsl.show(defn)} "
                             f"[{run['pres']}] {kind_of(p)}: "
                             f"{str(p[1:])[:160]}",
                     "input": {"name": t.get("name"), "defn": t["defn"],
                               "k": t.get("k", 2), "pres": [run["pres"]],
-                              "mode": t["mode"], "pi": t.get("pi")},
+                              "mode": t["mode"], "pi": t.get("pi"),
+                              "names": t.get("names")},
                     "observed": {"problem": p, "text": run.get("text")}})
             if len(samples) < 4 and len(tags) >= 3 and not probs:
                 samples.append({"definition": dsl.show(defn),
@@ -240,7 +246,8 @@ def replay_generic(rec):
         r = handle_subsets(i)
         return bool(r["bad"]), repr([b["problem"] for b in r["bad"]])[:300]
     r = handle({"defn": i["defn"], "k": i.get("k", 2), "pres": i["pres"],
-                "mode": i["mode"], "pi": i.get("pi")})
+                "mode": i["mode"], "pi": i.get("pi"),
+                "names": i.get("names")})
     want = rec["observed"]["problem"][0] if isinstance(rec["observed"], dict) \
         else None
     probs = [p for run in r["runs"] for p in run["problems"]]
